@@ -7,10 +7,12 @@ HEAP = 'yarel::memory::Heap'
 
 def run(rep):
     w = rep.world('dev')
-    g1(rep, w)
-    g2(rep, w)
-    g3(rep, w)
-    g4(rep, w)
+    rep.guard(g1, rep, w)
+    rep.guard(g2, rep, w)
+    rep.guard(g3, rep, w)
+    rep.guard(g4, rep, w)
+    rep.guard(g5, rep, w)
+    rep.guard(g6, rep, w)
 
 
 def g1(rep, w):
@@ -312,3 +314,84 @@ def bounded_by_len_test(f, call_block):
                         if rr['op'] in ('Lt', 'Le') and into_true:
                             return True
     return False
+
+
+def g5(rep, w):
+    """a root handle owns exactly one unit of its object's root count: every function in memory.rs that hands out a Root / UniqueRoot adds
+    exactly one on every path, counting the increments of the constructors it delegates to (one too many and the object can never be
+    reclaimed, one too few and it is reclaimed while in use)"""
+    c = w.yarel
+    r = rep.rule('G5', 'every constructor / conversion that yields a Root or UniqueRoot increments the root count exactly once on every path', floor=4)
+    INC = ('::inc_num_roots',)
+    makers = {}
+    for p_, f in c.fns.items():
+        if not f.file.endswith('memory.rs'):
+            continue
+        rt = c.tstr(f.local_ty(0))
+        if rt.startswith('memory::Root<') or rt.startswith('memory::UniqueRoot<'):
+            makers[p_] = f
+    if len([1 for g in makers.values() if g.kind != 'Closure']) < 4:
+        raise Broken('C16', 'floor', 'Root-yielding functions in memory.rs: %d' % len(makers))
+
+    memo = {}
+
+    def weight(p_, depth=0):
+        """(min, max) number of increments on a path through p_"""
+        if p_ in memo:
+            return memo[p_]
+        f = makers[p_]
+        memo[p_] = (1, 1)       # provisional, for (absent) recursion
+        per_block = {}
+        for bi, t in f.calls():
+            n = callee_name(t) or ''
+            if n.endswith(INC):
+                per_block[bi] = (1, 1)
+            elif n in makers and n != p_ and depth < 4:
+                per_block[bi] = weight(n, depth + 1)
+            elif 'LocalKey' in n and n.endswith('::with') and depth < 4:
+                # `HEAP.with(|heap| heap.borrow_mut().allocate_root(data))`: the work is in the closure
+                cl = [q_ for q_, g in makers.items() if g.kind == 'Closure' and g.parent == p_]
+                if cl:
+                    ws_ = [weight(q_, depth + 1) for q_ in cl]
+                    per_block[bi] = (sum(x[0] for x in ws_), sum(x[1] for x in ws_))
+        lo, hi = None, None
+        # enumerate paths (these bodies are tiny and loop-free)
+        stack = [(0, 0, 0, frozenset())]
+        steps = 0
+        while stack and steps < 5000:
+            steps += 1
+            b, a_lo, a_hi, seen = stack.pop()
+            if b in seen:
+                continue
+            w_ = per_block.get(b, (0, 0))
+            a_lo2, a_hi2 = a_lo + w_[0], a_hi + w_[1]
+            if f.blocks[b]['t']['t'] == 'return':
+                lo = a_lo2 if lo is None else min(lo, a_lo2)
+                hi = a_hi2 if hi is None else max(hi, a_hi2)
+                continue
+            for s_ in f.succs()[b]:
+                stack.append((s_, a_lo2, a_hi2, seen | {b}))
+        memo[p_] = (lo if lo is not None else 0, hi if hi is not None else 0)
+        return memo[p_]
+    for p_ in sorted(makers):
+        if makers[p_].kind == 'Closure':
+            continue
+        lo, hi = weight(p_)
+        r.check((lo, hi) == (1, 1), p_.replace('yarel::', ''), 'a path through %s adds %s to the root count (expected exactly 1): %s' %
+                (p_, lo if lo == hi else '%d..%d' % (lo, hi), 'the object stays rooted for ever' if hi > 1 else 'the handle does not keep its object alive'), makers[p_].loc())
+
+
+def g6(rep, w):
+    """what a finally block parked is released when it is taken back: the slot is emptied, so a large returned value is not kept alive
+    by a fiber that has long moved on"""
+    import c08
+    r = rep.rule('G6', 'taking the parked return value back empties the slot (no stale reference keeps garbage alive)', floor=1)
+    f = w.require_fn('yarel::object::ObjFiber::take_return_data', 'C16')
+    fields = {fd['n']: w.yarel.tstr(fd['t']) for fd in w.yarel.adts['yarel::object::ObjFiber']['variants'][0]['fields']}
+    reads, writes = c08.field_accesses(w, f, 0)
+    vals = [fld for (adt, fld) in reads if adt == 'yarel::object::ObjFiber' and 'Value' in fields.get(fld, '') and 'Stack' not in fields.get(fld, '') and 'Vec' not in fields.get(fld, '')]
+    if not vals:
+        raise Broken('C16', 'anchor', 'take_return_data reads no Value-typed field of ObjFiber')
+    for fld in sorted(set(vals)):
+        r.check(('yarel::object::ObjFiber', fld) in writes, 'take_return_data clears ObjFiber.%s' % fld, 'take_return_data hands the parked value out but leaves it in ObjFiber.%s: the fiber '
+                'keeps it (and everything it references) alive until the next return through a try block' % fld, f.loc())
